@@ -1,5 +1,890 @@
-use crate::Ctx;
+//! C13 - client and server snapshot state never diverge silently.
+//!
+//! Closed-loop simulation: a sender driving `Storage` exactly like `server/src/main.rs`
+//! (`new_builder` -> `add_item`* -> `finish` -> `add_snap` -> `Delta::write` -> `delta_chunks`, acks
+//! applied with `set_delta_tick`), a lossy/duplicating/reordering channel in both directions, and a
+//! receiving `Manager`. Oracle: every snapshot the `Manager` accepts equals, item for item, the
+//! snapshot the sender built for that tick (and has its crc); `Manager::ack_tick()` only ever names
+//! a tick whose snapshot was accepted (so it never advances to a tick whose message returned an
+//! error); neither side panics.
 
-pub fn run(_ctx: &Ctx) {
-    // not built yet
+use crate::c12_receiver::OMsg;
+use crate::util::Warnings;
+use crate::{burn, ensure, guard_s, pick, set_fuel, unlimited_fuel, Ctx, Outcome, PResult};
+use libtw2_gamenet_snap as msg;
+use libtw2_packer::with_packer;
+use libtw2_snapshot::format::TypeId;
+use libtw2_snapshot::snap::delta_chunks;
+use libtw2_snapshot::{Manager, Snap, Storage};
+use proptest::prelude::*;
+use serde::{Deserialize, Serialize};
+use std::collections::{BTreeMap, BTreeSet};
+
+pub const KEY_UUID_SIZES: &str = "sender-panics-when-uuid-type-numbers-shift";
+pub const KEY_UUID_LOOKUP: &str = "uuid-item-lookup-on-received-snapshot";
+
+// ---------------------------------------------------------------------------
+// Item universe
+
+const UUIDS: [[u8; 16]; 4] = [
+    [0x1a, 0x3f, 0xcc, 0x94, 0x1e, 0x53, 0x46, 0x1e, 0x91, 0x2e, 0x21, 0x20, 0x08, 0x82, 0x02, 0x4b],
+    [0xff, 0xff, 0xff, 0xff, 0xff, 0xff, 0x4f, 0xff, 0xbf, 0xff, 0xff, 0xff, 0xff, 0xff, 0xff, 0xff],
+    [0x00, 0x00, 0x00, 0x00, 0x00, 0x00, 0x40, 0x00, 0x80, 0x00, 0x00, 0x00, 0x00, 0x00, 0x00, 0x01],
+    [0x80, 0x00, 0x00, 0x00, 0x7f, 0xff, 0x31, 0x00, 0x80, 0x00, 0x00, 0x01, 0x00, 0x00, 0x00, 0x00],
+];
+pub const NUM_TYPES: u8 = 9;
+
+#[derive(Clone, Debug, PartialEq, Eq, PartialOrd, Ord)]
+pub enum TKey {
+    Ord(u16),
+    Uuid([u8; 16]),
+}
+
+fn tkey(ty: u8) -> TKey {
+    match ty {
+        0 => TKey::Ord(1),
+        1 => TKey::Ord(2),
+        2 => TKey::Ord(5),
+        3 => TKey::Ord(6),
+        4 => TKey::Ord(0x3fff),
+        n => TKey::Uuid(UUIDS[(n as usize - 5) % 4]),
+    }
+}
+
+fn type_id(k: &TKey) -> TypeId {
+    match k {
+        TKey::Ord(o) => TypeId::Ordinal(*o),
+        TKey::Uuid(u) => TypeId::Uuid(uuid::Uuid::from_bytes(*u)),
+    }
+}
+
+fn tkey_of(t: TypeId) -> TKey {
+    match t {
+        TypeId::Ordinal(o) => TKey::Ord(o),
+        TypeId::Uuid(u) => TKey::Uuid(*u.as_bytes()),
+    }
+}
+
+/// Sizes agreed in advance between both sides (like `obj_size` of the gamenet crates).
+fn object_size(raw_type_id: u16) -> Option<u32> {
+    match raw_type_id {
+        1 => Some(3),
+        2 => Some(1),
+        5 => Some(10),
+        _ => None,
+    }
+}
+
+/// The sender keeps the size of an item constant per key (the contract `Delta::create` documents).
+fn item_size(ty: u8, id: u16, uuid_same_size: bool) -> usize {
+    match ty {
+        0 => 3,
+        1 => 1,
+        2 => 10,
+        3 => (id % 4) as usize,
+        4 => 2,
+        5 => 2,
+        _ if uuid_same_size => 2,
+        6 => 3,
+        7 => 5,
+        _ => 0,
+    }
+}
+
+// ---------------------------------------------------------------------------
+// Case
+
+#[derive(Clone, Debug, Hash, Serialize, Deserialize, PartialEq)]
+pub enum Mut {
+    Set { ty: u8, id: u16, vals: Vec<i32> },
+    Tweak { pick: u16, word: u8, delta: i32 },
+    Remove { pick: u16 },
+    /// reverse the words of an item (keeps the crc)
+    Swap { pick: u16 },
+    /// move an amount from word 1 to word 0 of an item (keeps the crc)
+    Move { pick: u16, amount: i32 },
+    RemoveType { ty: u8 },
+    Clear,
+    Bulk { ty: u8, first: u16, count: u16, seed: u32 },
+}
+
+#[derive(Clone, Debug, Hash, Serialize, Deserialize, PartialEq)]
+pub struct Step {
+    pub inc: u8,
+    pub muts: Vec<Mut>,
+    /// fate of the snapshot messages of this tick (cycled over the parts)
+    pub fates: Vec<u8>,
+    /// delayed snapshot messages released before this tick's messages
+    pub release: Vec<u16>,
+    pub ack_fate: u8,
+    pub ack_release: Vec<u16>,
+}
+
+/// Fault rates in 1/256 per message.
+#[derive(Clone, Debug, Hash, Serialize, Deserialize, PartialEq, Default)]
+pub struct Profile {
+    pub drop: u8,
+    pub dup: u8,
+    pub delay: u8,
+    pub ack_drop: u8,
+    pub ack_dup: u8,
+    pub ack_delay: u8,
+    /// crc field of the message altered (only used by the `closed_loop_badcrc` section)
+    pub badcrc: u8,
+}
+
+#[derive(Clone, Debug, Hash, Serialize, Deserialize, PartialEq)]
+pub struct LoopCase {
+    pub start_tick: i32,
+    pub profile: Profile,
+    /// all acknowledgements of steps start..start+len are lost
+    pub blackout: (u16, u16),
+    /// send the empty message form when the new snapshot is identical to the base snapshot
+    pub empty_form: bool,
+    pub uuid_same_size: bool,
+    pub steps: Vec<Step>,
+}
+
+#[derive(Copy, Clone, Debug, PartialEq)]
+enum Fate {
+    Deliver,
+    Drop,
+    Dup,
+    Delay,
+    DupDelay,
+    BadCrc,
+}
+
+fn fate(f: u8, drop: u8, dup: u8, delay: u8, badcrc: u8) -> Fate {
+    let x = f as u32;
+    let mut lo = 256u32.saturating_sub(drop as u32);
+    if x >= lo {
+        return Fate::Drop;
+    }
+    let hi = lo;
+    lo = hi.saturating_sub(dup as u32);
+    if x >= lo {
+        return Fate::Dup;
+    }
+    let hi = lo;
+    lo = hi.saturating_sub(delay as u32);
+    if x >= lo {
+        return if x % 2 == 0 { Fate::Delay } else { Fate::DupDelay };
+    }
+    let hi = lo;
+    lo = hi.saturating_sub(badcrc as u32);
+    if x >= lo {
+        return Fate::BadCrc;
+    }
+    Fate::Deliver
+}
+
+// ---------------------------------------------------------------------------
+// Interpreter
+
+type Items = Vec<(TKey, u16, Vec<i32>)>;
+
+struct Truth {
+    items: Items,
+    crc: i32,
+    base: i32,
+    parts: usize,
+}
+
+#[derive(Default, Debug)]
+pub struct LoopStats {
+    pub ticks: usize,
+    pub accepted: usize,
+    pub accepted_nonempty_base: usize,
+    pub accepted_multipart: usize,
+    pub accepted_empty_form: usize,
+    pub accepted_with_uuid: usize,
+    pub accepted_out_of_order_parts: usize,
+    pub lost: usize,
+    pub duplicated: usize,
+    pub delayed_delivered: usize,
+    pub crc_faults: usize,
+    pub client_errors: BTreeMap<String, usize>,
+    pub client_warned: usize,
+    pub stale_acks: usize,
+    pub acks_applied: usize,
+    pub full_after_delta: usize,
+    pub max_parts: usize,
+    pub max_items: usize,
+    pub items_refused: usize,
+    pub uuid_lookup_skipped: usize,
+}
+
+fn apply_mut(world: &mut BTreeMap<(u8, u16), Vec<i32>>, m: &Mut, same: bool) {
+    let nth_key = |world: &BTreeMap<(u8, u16), Vec<i32>>, p: u16| -> Option<(u8, u16)> {
+        if world.is_empty() {
+            None
+        } else {
+            world.keys().nth(pick(p, world.len())).copied()
+        }
+    };
+    match m {
+        Mut::Set { ty, id, vals } => {
+            let ty = *ty % NUM_TYPES;
+            let n = item_size(ty, *id, same);
+            let mut v = vals.clone();
+            v.resize(n, 0);
+            world.insert((ty, *id), v);
+        }
+        Mut::Tweak { pick: p, word, delta } => {
+            if let Some(k) = nth_key(world, *p) {
+                let v = world.get_mut(&k).unwrap();
+                if !v.is_empty() {
+                    let i = *word as usize % v.len();
+                    v[i] = v[i].wrapping_add(*delta);
+                }
+            }
+        }
+        Mut::Remove { pick: p } => {
+            if let Some(k) = nth_key(world, *p) {
+                world.remove(&k);
+            }
+        }
+        Mut::Swap { pick: p } => {
+            if let Some(k) = nth_key(world, *p) {
+                world.get_mut(&k).unwrap().reverse();
+            }
+        }
+        Mut::Move { pick: p, amount } => {
+            if let Some(k) = nth_key(world, *p) {
+                let v = world.get_mut(&k).unwrap();
+                if v.len() >= 2 {
+                    v[0] = v[0].wrapping_add(*amount);
+                    v[1] = v[1].wrapping_sub(*amount);
+                }
+            }
+        }
+        Mut::RemoveType { ty } => {
+            let ty = *ty % NUM_TYPES;
+            world.retain(|k, _| k.0 != ty);
+        }
+        Mut::Clear => world.clear(),
+        Mut::Bulk { ty, first, count, seed } => {
+            let ty = *ty % NUM_TYPES;
+            for i in 0..*count {
+                let id = first.wrapping_add(i);
+                let n = item_size(ty, id, same);
+                let v: Vec<i32> = (0..n)
+                    .map(|k| {
+                        let h = (*seed as u64 ^ ((id as u64) << 20) ^ k as u64).wrapping_mul(0x9E37_79B9_7F4A_7C15);
+                        (h >> 29) as i32
+                    })
+                    .collect();
+                world.insert((ty, id), v);
+            }
+        }
+    }
+}
+
+fn collect_items(s: &Snap) -> Items {
+    let mut v: Items = Vec::new();
+    for it in s.items() {
+        burn();
+        v.push((tkey_of(it.type_id), it.id, it.data.to_vec()));
+    }
+    v.sort();
+    v
+}
+
+fn describe_diff(got: &Items, want: &Items) -> String {
+    let g: BTreeMap<(&TKey, u16), &Vec<i32>> = got.iter().map(|(t, i, d)| ((t, *i), d)).collect();
+    let w: BTreeMap<(&TKey, u16), &Vec<i32>> = want.iter().map(|(t, i, d)| ((t, *i), d)).collect();
+    for (k, d) in &w {
+        match g.get(k) {
+            None => return format!("item {:?} id {} (data {:?}) is missing on the receiving side", k.0, k.1, d),
+            Some(x) if x != d => {
+                return format!("item {:?} id {}: receiver has {:?}, sender built {:?}", k.0, k.1, x, d)
+            }
+            _ => {}
+        }
+    }
+    for (k, d) in &g {
+        if !w.contains_key(k) {
+            return format!("receiver has the extra item {:?} id {} (data {:?})", k.0, k.1, d);
+        }
+    }
+    format!("same item sets but different multiplicity: {} vs {} items", got.len(), want.len())
+}
+
+enum CRes {
+    Accepted { items: Items, crc: i32, lookup_fail: Option<String> },
+    Pending,
+    Error(String),
+}
+
+fn client_call(client: &mut Manager, w: &mut Warnings, m: &OMsg, truth: Option<&Truth>, lookup_uuid: bool) -> Result<CRes, String> {
+    guard_s("receiving side (Manager::snap*)", || {
+        let r = match m {
+            OMsg::Empty { tick, delta_tick } => {
+                client.snap_empty(w, object_size, msg::SnapEmpty { tick: *tick, delta_tick: *delta_tick })
+            }
+            OMsg::Single { tick, delta_tick, crc, data } => client.snap_single(
+                w,
+                object_size,
+                msg::SnapSingle { tick: *tick, delta_tick: *delta_tick, crc: *crc, data },
+            ),
+            OMsg::Part { tick, delta_tick, num_parts, part, crc, data } => client.snap(
+                w,
+                object_size,
+                msg::Snap {
+                    tick: *tick,
+                    delta_tick: *delta_tick,
+                    num_parts: *num_parts,
+                    part: *part,
+                    crc: *crc,
+                    data,
+                },
+            ),
+        };
+        match r {
+            Ok(Some(s)) => {
+                let mut lookup_fail = None;
+                if let Some(t) = truth {
+                    for (k, id, d) in &t.items {
+                        burn();
+                        if matches!(k, TKey::Uuid(_)) && !lookup_uuid {
+                            continue;
+                        }
+                        let got = s.item(type_id(k), *id);
+                        if got != Some(&d[..]) {
+                            lookup_fail = Some(format!(
+                                "Snap::item({:?}, {}) on the accepted snapshot returns {:?}, the sender's snapshot has {:?}",
+                                k, id, got, d
+                            ));
+                            break;
+                        }
+                    }
+                }
+                CRes::Accepted { items: collect_items(s), crc: s.crc(), lookup_fail }
+            }
+            Ok(None) => CRes::Pending,
+            Err(e) => CRes::Error(format!("{:?}", e)),
+        }
+    })
+}
+
+fn with_bad_crc(m: &OMsg) -> OMsg {
+    let mut m = m.clone();
+    match &mut m {
+        OMsg::Empty { .. } => {}
+        OMsg::Single { crc, .. } | OMsg::Part { crc, .. } => *crc = crc.wrapping_add(1),
+    }
+    m
+}
+
+pub fn run_loop(c: &LoopCase, lookup_uuid: bool) -> Result<LoopStats, String> {
+    set_fuel(50_000_000);
+    let r = run_loop_inner(c, lookup_uuid);
+    unlimited_fuel();
+    r
+}
+
+fn run_loop_inner(c: &LoopCase, lookup_uuid: bool) -> Result<LoopStats, String> {
+    let mut st = LoopStats::default();
+    let mut server = Storage::new();
+    let mut client = Manager::new();
+    let mut world: BTreeMap<(u8, u16), Vec<i32>> = BTreeMap::new();
+    let mut truth: BTreeMap<i32, Truth> = BTreeMap::new();
+    let mut ints: BTreeMap<i32, Vec<i32>> = BTreeMap::new();
+    let mut accepted: BTreeSet<i32> = BTreeSet::new();
+    let mut arrival: BTreeMap<i32, Vec<i32>> = BTreeMap::new();
+    let mut pool: Vec<OMsg> = Vec::new();
+    let mut ack_pool: Vec<i32> = Vec::new();
+    let mut buf: Vec<u8> = Vec::new();
+    let mut ibuf: Vec<i32> = Vec::new();
+    let mut tick = c.start_tick;
+    ensure!(tick >= 0, "generator error: negative start tick");
+    let p = &c.profile;
+    let mut had_delta_base = false;
+
+    for (si, step) in c.steps.iter().enumerate() {
+        burn();
+        tick = match tick.checked_add(step.inc.max(1) as i32) {
+            Some(t) if t < i32::MAX => t,
+            _ => break,
+        };
+        st.ticks += 1;
+        for m in &step.muts {
+            apply_mut(&mut world, m, c.uuid_same_size);
+        }
+        // ---- sender, as in server/src/main.rs::send_snapshots
+        let delta_tick = server.delta_tick().unwrap_or(-1);
+        if delta_tick >= 0 {
+            had_delta_base = true;
+        } else if had_delta_base {
+            st.full_after_delta += 1;
+            had_delta_base = false;
+        }
+        let (snap, added) = guard_s(&format!("sending side, tick {} (Storage::new_builder / Builder::add_item / finish)", tick), || {
+            let mut b = server.new_builder();
+            let mut added: Items = Vec::new();
+            let mut refused = 0;
+            for (&(ty, id), data) in &world {
+                burn();
+                let k = tkey(ty);
+                match b.add_item(type_id(&k), id, data) {
+                    Ok(()) => added.push((k, id, data.clone())),
+                    Err(_) => refused += 1,
+                }
+            }
+            (b.finish(), (added, refused))
+        })?;
+        let (mut added, refused) = added;
+        st.items_refused += refused;
+        added.sort();
+        let built = collect_items(&snap);
+        if built != added {
+            return Err(format!(
+                "sending side, tick {}: the snapshot the builder finished differs from the items added: {}",
+                tick,
+                describe_diff(&built, &added)
+            ));
+        }
+        let crc = snap.crc();
+        st.max_items = st.max_items.max(built.len());
+        if c.empty_form {
+            let mut out = vec![0i32; 2 + 2 * 1024 + 16 * 1024 + 16];
+            let n = snap
+                .write_to_ints(&mut ibuf, &mut out)
+                .map_err(|_| format!("tick {}: Snap::write_to_ints does not fit {} ints", tick, 2 + 2 * 1024 + 16 * 1024 + 16))?
+                .len();
+            out.truncate(n);
+            ints.insert(tick, out);
+        }
+        buf.clear();
+        buf.reserve(1 << 20);
+        guard_s(
+            &format!("sending side, tick {} against base {} (Storage::add_snap / Delta::write)", tick, delta_tick),
+            || {
+                let delta = server.add_snap(tick, snap);
+                with_packer(&mut buf, |p| delta.write(object_size, p).map(|w| w.len()))
+            },
+        )?
+        .map_err(|_| format!("tick {}: delta does not fit a 1 MiB buffer", tick))?;
+        let mut data: &[u8] = &buf;
+        if c.empty_form {
+            let same = if delta_tick >= 0 {
+                ints.get(&delta_tick) == ints.get(&tick)
+            } else {
+                built.is_empty() && ints.get(&tick).map(|v| v.len()) == Some(2)
+            };
+            if same {
+                data = &[];
+            }
+        }
+        let msgs: Vec<OMsg> = guard_s("delta_chunks", || {
+            delta_chunks(tick, delta_tick, data, crc).map(|m| OMsg::from_msg(&m)).collect()
+        })?;
+        st.max_parts = st.max_parts.max(msgs.len());
+        truth.insert(tick, Truth { items: built, crc, base: delta_tick, parts: msgs.len() });
+
+        // ---- channel towards the receiver
+        let mut deliver: Vec<OMsg> = Vec::new();
+        for r in &step.release {
+            if !pool.is_empty() {
+                let m = pool.remove(pick(*r, pool.len()));
+                st.delayed_delivered += 1;
+                deliver.push(m);
+            }
+        }
+        for (i, m) in msgs.into_iter().enumerate() {
+            let f = step.fates.get(i % step.fates.len().max(1)).copied().unwrap_or(0);
+            match fate(f, p.drop, p.dup, p.delay, p.badcrc) {
+                Fate::Deliver => deliver.push(m),
+                Fate::Drop => st.lost += 1,
+                Fate::Dup => {
+                    st.duplicated += 1;
+                    deliver.push(m.clone());
+                    deliver.push(m);
+                }
+                Fate::Delay => pool.push(m),
+                Fate::DupDelay => {
+                    st.duplicated += 1;
+                    deliver.push(m.clone());
+                    pool.push(m);
+                }
+                Fate::BadCrc => {
+                    st.crc_faults += 1;
+                    deliver.push(with_bad_crc(&m));
+                }
+            }
+        }
+        while pool.len() > 48 {
+            pool.remove(0);
+            st.lost += 1;
+        }
+
+        // ---- receiver
+        for m in &deliver {
+            burn();
+            let t = m.tick();
+            let tr = truth.get(&t);
+            let mut w = Warnings::new();
+            let res = client_call(&mut client, &mut w, m, tr, lookup_uuid)?;
+            if !w.is_empty() {
+                st.client_warned += 1;
+            }
+            if let OMsg::Part { part, .. } = m {
+                arrival.entry(t).or_default().push(*part);
+            }
+            let ack = client.ack_tick();
+            match res {
+                CRes::Accepted { items, crc, lookup_fail } => {
+                    let tr = tr.ok_or_else(|| format!("receiver accepted a snapshot for tick {} which was never sent", t))?;
+                    if items != tr.items {
+                        return Err(format!(
+                            "step {}: the receiving side accepted a snapshot for tick {} (base {}, {} message(s)) that differs from the one the sender built: {}",
+                            si, t, tr.base, tr.parts, describe_diff(&items, &tr.items)
+                        ));
+                    }
+                    ensure!(
+                        crc == tr.crc,
+                        "step {}: accepted snapshot for tick {} has crc {} but the sender's has {}",
+                        si,
+                        t,
+                        crc,
+                        tr.crc
+                    );
+                    if let Some(l) = lookup_fail {
+                        return Err(format!("step {}: tick {}: {}", si, t, l));
+                    }
+                    accepted.insert(t);
+                    st.accepted += 1;
+                    if tr.base >= 0 && truth.get(&tr.base).map(|b| !b.items.is_empty()).unwrap_or(false) {
+                        st.accepted_nonempty_base += 1;
+                    }
+                    if tr.parts >= 2 {
+                        st.accepted_multipart += 1;
+                        let arr = arrival.get(&t).cloned().unwrap_or_default();
+                        if !arr.windows(2).all(|x| x[0] < x[1]) {
+                            st.accepted_out_of_order_parts += 1;
+                        }
+                    }
+                    if matches!(m, OMsg::Empty { .. }) {
+                        st.accepted_empty_form += 1;
+                    }
+                    if tr.items.iter().any(|i| matches!(i.0, TKey::Uuid(_))) {
+                        st.accepted_with_uuid += 1;
+                        if !lookup_uuid {
+                            st.uuid_lookup_skipped += 1;
+                        }
+                    }
+                }
+                CRes::Pending => {}
+                CRes::Error(e) => {
+                    *st.client_errors.entry(e.clone()).or_insert(0) += 1;
+                    ensure!(
+                        ack != Some(t) || accepted.contains(&t),
+                        "step {}: the message for tick {} was answered with the error {} but Manager::ack_tick() is now {:?}",
+                        si,
+                        t,
+                        e,
+                        ack
+                    );
+                }
+            }
+            if let Some(a) = ack {
+                ensure!(
+                    accepted.contains(&a),
+                    "step {}: after the message {} Manager::ack_tick() is {} although no snapshot for that tick was accepted",
+                    si,
+                    brief(m),
+                    a
+                );
+            }
+        }
+
+        // ---- acknowledgement path
+        let blackout = (si as u64) >= c.blackout.0 as u64 && (si as u64) < c.blackout.0 as u64 + c.blackout.1 as u64;
+        let mut acks: Vec<i32> = Vec::new();
+        if !blackout {
+            for r in &step.ack_release {
+                if !ack_pool.is_empty() {
+                    acks.push(ack_pool.remove(pick(*r, ack_pool.len())));
+                }
+            }
+        }
+        let a = client.ack_tick().unwrap_or(-1);
+        if blackout {
+            st.lost += 1;
+        } else {
+            match fate(step.ack_fate, p.ack_drop, p.ack_dup, p.ack_delay, 0) {
+                Fate::Deliver | Fate::BadCrc => acks.push(a),
+                Fate::Drop => st.lost += 1,
+                Fate::Dup => {
+                    st.duplicated += 1;
+                    acks.push(a);
+                    acks.push(a);
+                }
+                Fate::Delay => ack_pool.push(a),
+                Fate::DupDelay => {
+                    st.duplicated += 1;
+                    acks.push(a);
+                    ack_pool.push(a);
+                }
+            }
+        }
+        while ack_pool.len() > 32 {
+            ack_pool.remove(0);
+            st.lost += 1;
+        }
+        for a in acks {
+            let mut w = Warnings::new();
+            let r = guard_s(&format!("sending side, Storage::set_delta_tick({})", a), || server.set_delta_tick(&mut w, a))?;
+            st.acks_applied += 1;
+            if r.is_err() {
+                st.stale_acks += 1;
+            }
+        }
+    }
+    Ok(st)
+}
+
+fn brief(m: &OMsg) -> String {
+    match m {
+        OMsg::Empty { tick, delta_tick } => format!("SnapEmpty(tick={}, delta_tick={})", tick, delta_tick),
+        OMsg::Single { tick, delta_tick, data, .. } => {
+            format!("SnapSingle(tick={}, delta_tick={}, {} bytes)", tick, delta_tick, data.len())
+        }
+        OMsg::Part { tick, delta_tick, num_parts, part, data, .. } => format!(
+            "Snap(tick={}, delta_tick={}, part {}/{}, {} bytes)",
+            tick,
+            delta_tick,
+            part,
+            num_parts,
+            data.len()
+        ),
+    }
+}
+
+fn outcome(c: &LoopCase, st: &LoopStats) -> Outcome {
+    let faults = st.lost + st.delayed_delivered + st.duplicated;
+    let err = |k: &str| st.client_errors.keys().any(|e| e.contains(k));
+    Outcome::nt(st.accepted_nonempty_base >= 1 && (st.lost + st.delayed_delivered) >= 1)
+        .class_if(st.accepted_nonempty_base >= 1, "delta_against_nonempty_base_accepted")
+        .class_if(st.accepted >= 1 && faults == 0, "fault_free_history")
+        .class_if(st.accepted_multipart >= 1, "multipart_snapshot_accepted")
+        .class_if(st.accepted_out_of_order_parts >= 1, "multipart_accepted_parts_out_of_order")
+        .class_if(st.max_parts >= 8, "snapshot_of_8_or_more_parts")
+        .class_if(st.max_parts > 32, "snapshot_over_32_parts")
+        .class_if(st.accepted_empty_form >= 1, "empty_form_accepted")
+        .class_if(st.accepted_with_uuid >= 1, "uuid_items_accepted")
+        .class_if(st.stale_acks >= 1, "ack_for_dropped_snapshot")
+        .class_if(st.full_after_delta >= 1, "sender_fell_back_to_full_snapshot")
+        .class_if(err("UnknownSnap"), "client_unknown_snap")
+        .class_if(err("InvalidCrc"), "client_invalid_crc")
+        .class_if(err("OldDelta"), "client_old_delta")
+        .class_if(err("DuplicatePart"), "client_duplicate_part")
+        .class_if(err("InvalidNumParts"), "client_invalid_num_parts")
+        .class_if(st.client_warned >= 1, "client_warned")
+        .class_if(st.items_refused >= 1, "builder_refused_items")
+        .class_if(st.max_items >= 200, "snapshot_of_200_or_more_items")
+        .class_if(st.ticks >= 100, "history_of_100_or_more_ticks")
+        .class_if(c.blackout.1 > 100, "ack_blackout_over_100_ticks")
+        .class_if(st.crc_faults >= 1, "crc_field_altered")
+        .class_if(c.start_tick > i32::MAX - 1000, "ticks_near_i32_max")
+}
+
+// ---------------------------------------------------------------------------
+// Generators
+
+fn word_strategy() -> BoxedStrategy<i32> {
+    prop_oneof![
+        4 => Just(0i32),
+        3 => -3i32..=3,
+        2 => any::<i32>(),
+        1 => prop_oneof![Just(i32::MIN), Just(i32::MAX), Just(-1), Just(1 << 20)],
+    ]
+    .boxed()
+}
+
+fn id_strategy() -> BoxedStrategy<u16> {
+    prop_oneof![7 => 0u16..6, 1 => any::<u16>(), 1 => prop_oneof![Just(0xffffu16), Just(0x4000), Just(255), Just(256)]].boxed()
+}
+
+fn mut_strategy(big: bool) -> BoxedStrategy<Mut> {
+    let count = if big {
+        prop_oneof![5 => 1u16..30, 3 => 30u16..150, 1 => 150u16..700].boxed()
+    } else {
+        (1u16..12).boxed()
+    };
+    prop_oneof![
+        7 => (0u8..NUM_TYPES, id_strategy(), proptest::collection::vec(word_strategy(), 0..=10))
+            .prop_map(|(ty, id, vals)| Mut::Set { ty, id, vals }),
+        3 => (any::<u16>(), 0u8..10, word_strategy()).prop_map(|(pick, word, delta)| Mut::Tweak { pick, word, delta }),
+        3 => any::<u16>().prop_map(|pick| Mut::Remove { pick }),
+        1 => any::<u16>().prop_map(|pick| Mut::Swap { pick }),
+        1 => (any::<u16>(), word_strategy()).prop_map(|(pick, amount)| Mut::Move { pick, amount }),
+        1 => (0u8..NUM_TYPES).prop_map(|ty| Mut::RemoveType { ty }),
+        1 => (prop_oneof![Just(2u8), Just(3), Just(4), Just(6)], 0u16..1500, count, any::<u32>())
+            .prop_map(|(ty, first, count, seed)| Mut::Bulk { ty, first, count, seed }),
+        1 => prop_oneof![9 => any::<u16>().prop_map(|pick| Mut::Remove { pick }), 1 => Just(Mut::Clear)],
+    ]
+    .boxed()
+}
+
+fn step_strategy(big: bool) -> impl Strategy<Value = Step> {
+    (
+        prop_oneof![6 => Just(1u8), 2 => Just(2u8), 1 => 3u8..=50],
+        proptest::collection::vec(mut_strategy(big), 0..4),
+        proptest::collection::vec(any::<u8>(), 1..5),
+        proptest::collection::vec(any::<u16>(), 0..3),
+        any::<u8>(),
+        proptest::collection::vec(any::<u16>(), 0..2),
+    )
+        .prop_map(|(inc, muts, fates, release, ack_fate, ack_release)| Step { inc, muts, fates, release, ack_fate, ack_release })
+}
+
+fn profile_strategy(badcrc: bool) -> BoxedStrategy<Profile> {
+    let bc = if badcrc { (8u8..60).boxed() } else { Just(0u8).boxed() };
+    let rates = prop_oneof![
+        2 => Just((0u8, 0u8, 0u8, 0u8, 0u8, 0u8)),
+        3 => (0u8..30, 0u8..20, 0u8..30, 0u8..40, 0u8..20, 0u8..40),
+        2 => (20u8..90, 0u8..50, 0u8..70, 0u8..120, 0u8..40, 0u8..80),
+        1 => (0u8..8, 0u8..8, 0u8..8, 40u8..200, 0u8..20, 0u8..30),
+        1 => (0u8..20, 0u8..20, 60u8..160, 0u8..20, 0u8..20, 60u8..160),
+    ];
+    (rates, bc)
+        .prop_map(|((drop, dup, delay, ack_drop, ack_dup, ack_delay), badcrc)| Profile {
+            drop,
+            dup,
+            delay,
+            ack_drop,
+            ack_dup,
+            ack_delay,
+            badcrc,
+        })
+        .boxed()
+}
+
+fn start_tick_strategy() -> BoxedStrategy<i32> {
+    prop_oneof![3 => 0i32..10, 2 => 0i32..1_000_000, 1 => (0i32..3000).prop_map(|d| i32::MAX - 3000 + d - 200)].boxed()
+}
+
+fn case_strategy(max_steps: usize, force_same_size: bool, badcrc: bool) -> BoxedStrategy<LoopCase> {
+    let general = (
+        start_tick_strategy(),
+        profile_strategy(badcrc),
+        any::<bool>(),
+        prop_oneof![3 => Just(false), 1 => Just(true)],
+        prop_oneof![
+            4 => proptest::collection::vec(step_strategy(true), 1..25),
+            3 => proptest::collection::vec(step_strategy(true), 1..(max_steps * 2 / 3).max(26)),
+            1 => proptest::collection::vec(step_strategy(false), 1..=max_steps.max(27)),
+        ],
+    )
+        .prop_map(move |(start_tick, profile, empty_form, same, steps)| LoopCase {
+            start_tick,
+            profile,
+            blackout: (0, 0),
+            empty_form,
+            uuid_same_size: same || force_same_size,
+            steps,
+        });
+    // acknowledgements lost for more than 100 ticks while snapshots keep arriving: the receiver
+    // drops the base the sender still uses (UnknownSnap recovery path)
+    let blackout = (
+        0i32..1000,
+        profile_strategy(badcrc),
+        (1u16..8, 101u16..118),
+        any::<bool>(),
+        proptest::collection::vec(step_strategy(false), 125..=max_steps.max(126)),
+        any::<bool>(),
+    )
+        .prop_map(move |(start_tick, mut profile, blackout, empty_form, steps, clean)| {
+            if clean {
+                profile = Profile { badcrc: profile.badcrc / 4, ..Profile::default() };
+            } else {
+                profile.drop /= 8;
+                profile.delay /= 8;
+            }
+            LoopCase { start_tick, profile, blackout, empty_form, uuid_same_size: true, steps }
+        });
+    prop_oneof![14 => general, 1 => blackout].boxed()
+}
+
+// ---------------------------------------------------------------------------
+
+fn set(ty: u8, id: u16, vals: &[i32]) -> Mut {
+    Mut::Set { ty, id, vals: vals.to_vec() }
+}
+
+fn clean_step(muts: Vec<Mut>) -> Step {
+    Step { inc: 1, muts, fates: vec![0], release: vec![], ack_fate: 0, ack_release: vec![] }
+}
+
+/// Minimal history for the UUID renumbering panic: two UUID types of different size, the first
+/// one disappears after the receiver acknowledged the snapshot holding both.
+fn probe_uuid_sizes() -> Result<(), String> {
+    let c = LoopCase {
+        start_tick: 0,
+        profile: Profile::default(),
+        blackout: (0, 0),
+        empty_form: false,
+        uuid_same_size: false,
+        steps: vec![
+            clean_step(vec![set(5, 0, &[1, 2]), set(6, 0, &[3, 4, 5])]),
+            clean_step(vec![Mut::RemoveType { ty: 5 }]),
+        ],
+    };
+    run_loop(&c, false).map(|_| ())
+}
+
+fn probe_uuid_lookup() -> Result<(), String> {
+    let c = LoopCase {
+        start_tick: 0,
+        profile: Profile::default(),
+        blackout: (0, 0),
+        empty_form: false,
+        uuid_same_size: true,
+        steps: vec![clean_step(vec![set(5, 7, &[1, 2])])],
+    };
+    let st = run_loop(&c, true)?;
+    ensure!(st.accepted == 1, "probe history: the single snapshot was not accepted");
+    Ok(())
+}
+
+pub fn run(ctx: &Ctx) {
+    ctx.set_rule(
+        "history = start tick + fault profile + up to N steps; each step advances the tick, mutates the world (items of 5 ordinal and 4 UUID \
+         types set / tweaked / removed / crc-neutral rearranged / bulk-added for multi-part deltas), builds and sends the snapshot through the \
+         Storage API, delivers / drops / duplicates / delays each snapshot message and the acknowledgement by generated fates, releases \
+         generated delayed messages. Non-trivial = at least one delta against a non-empty base snapshot was accepted AND at least one message \
+         was lost or delivered late (distinct by case hash).",
+    );
+    ctx.assume("the sender is the sequence of Storage calls of server/src/main.rs; item sizes are constant per (type, id); ticks ascend and stay below i32::MAX");
+    ctx.assume("the empty message form is sent only when the serialized new snapshot equals the serialized base snapshot (what the protocol's reference server does)");
+    ctx.assume("closed_loop_badcrc additionally alters the crc field of delivered messages; only the clauses 'accepted => equal' and 'error => ack_tick not that tick' are evaluated, as everywhere");
+    let sizes_open = ctx.known_open(KEY_UUID_SIZES);
+    let lookup_open = ctx.known_open(KEY_UUID_LOOKUP);
+    ctx.probe(KEY_UUID_SIZES, probe_uuid_sizes);
+    ctx.probe(KEY_UUID_LOOKUP, probe_uuid_lookup);
+    if sizes_open {
+        ctx.note(format!("known finding {} is open: all UUID-typed items are generated with the same size", KEY_UUID_SIZES));
+    }
+    if lookup_open {
+        ctx.note(format!("known finding {} is open: Snap::item() is not evaluated for UUID-typed items", KEY_UUID_LOOKUP));
+    }
+    let max_steps = if ctx.quick() { 135 } else { 400 };
+    let check = |c: &LoopCase| -> PResult {
+        let st = run_loop(c, !lookup_open)?;
+        Ok(outcome(c, &st))
+    };
+    ctx.prop(
+        "closed_loop",
+        ctx.n(1500, 30_000),
+        || case_strategy(max_steps, sizes_open, false),
+        check,
+    );
+    ctx.prop(
+        "closed_loop_badcrc",
+        ctx.n(500, 8_000),
+        || case_strategy(max_steps, sizes_open, true),
+        check,
+    );
 }
